@@ -128,7 +128,7 @@ class Env(object):
         return L
 
 
-UNARY = ['neg', 'ls', 'rs', 'div', 'lv', 'rv', 'vadd', 'vradd', 'vsub', 'rvsub', 'sadd', 'ssub', 'rssub', 'pow', 'ls@', 'rs@', 'lv@', 'rv@']
+UNARY = ['neg', 'pos', 'ls', 'rs', 'div', 'lv', 'rv', 'vadd', 'vradd', 'vsub', 'rvsub', 'sadd', 'ssub', 'rssub', 'pow', 'ls@', 'rs@', 'lv@', 'rv@']
 BINARY = ['sum', 'sub', 'comp', 'matmul']
 COMBINATORS = UNARY + BINARY
 
@@ -147,6 +147,8 @@ def build(env, kind, a, b=None, scls='gen'):
     rng = env.rng
     if kind == 'neg':
         return (-op, lambda x: -ref(x), lin, '(-%s)' % txt, dom, ran)
+    if kind == 'pos':
+        return (+op, ref, lin, '(+%s)' % txt, dom, ran)
     if kind == 'ls':
         s = env.scalar(scls)
         return (s * op, lambda x: s * ref(x), lin, '(%r * %s)' % (s, txt), dom, ran)
